@@ -3,11 +3,14 @@ import json, os, subprocess, tempfile, concurrent.futures as cf
 from . import build
 
 HDIR = os.path.join(build.ROOT, ".build", "harness")
-ENV = {"ASAN_OPTIONS": "detect_leaks=0:exitcode=99", "UBSAN_OPTIONS": "print_stacktrace=0"}
+ENV = {"ASAN_OPTIONS": "detect_leaks=0:exitcode=99", "UBSAN_OPTIONS": "print_stacktrace=0",
+       "TSAN_OPTIONS": "exitcode=66:halt_on_error=0"}
 
 
-def ensure(names):
+def ensure(names, tsan=False):
     build.ensure("san")
+    if tsan:
+        build.ensure("tsan")
     subprocess.check_call([os.path.join(build.ROOT, "tools", "build_harness_api.sh")] + list(names), stdout=subprocess.DEVNULL,
                           env=dict(os.environ, VERIF_REPO=build.REPO))
 
@@ -41,9 +44,19 @@ def run_one(name, args, rc_params=None, exclude="", timeout=None, extra_env=None
     os.unlink(sp)
     os.unlink(fp)
     ub = sorted({l.strip() for l in err.split("\n") if "runtime error:" in l})
+    races = []
+    if "WARNING: ThreadSanitizer" in err:
+        cur = None
+        for l in err.split("\n"):
+            if "WARNING: ThreadSanitizer" in l:
+                cur = [l.strip()]
+                races.append(cur)
+            elif cur is not None and l.strip().startswith("#") and len(cur) < 4 and "/repo/src" in l:
+                cur.append(l.strip().split(" /repo/src/")[-1].split(" (")[0])
+        races = sorted({" | ".join(r) for r in races})
     asan = "ERROR: AddressSanitizer" in err
     return {"rc": rc, "timeout": to, "stdout": out[-4000:], "stderr": err[-3000:], "stats": stats, "fail": fail, "ub": ub,
-            "asan": asan, "args": list(args), "rc_params": rc_params}
+            "asan": asan, "args": list(args), "rc_params": rc_params, "races": races, "name": name}
 
 
 def run_many(jobs, workers=16):
